@@ -173,8 +173,8 @@ func runC12(c *core.Ctx) *core.Outcome {
 			for _, p := range names {
 				b := files[p]
 				base := p[strings.LastIndex(p, "/")+1:]
-				if len(base) < 2 || strings.HasPrefix(base, ".") {
-					continue
+				if len(base) < 2 || base[0] != '@' {
+					continue // only records under their primary name (type character of the state type) are moved
 				}
 				disk.RemoveFile(p)
 				disk.SetFile(p[:len(p)-len(base)]+base[1:], b)
